@@ -131,27 +131,29 @@ def KexInit.viaWire (k : KexInit) : KexInit :=
     cMac := Negotiate.viaWire k.cMac, sMac := Negotiate.viaWire k.sMac,
     cComp := Negotiate.viaWire k.cComp, sComp := Negotiate.viaWire k.sComp }
 
+/-- the group-exchange-without-moduli rule of `_send_kex_init` applies -/
+def Side.mustDropGex (s : Side) : Bool :=
+  s.serverMode && !s.hasModuli && (s.preferredKex.filter isGex).length > 0
+
 /-- `Transport._send_kex_init`: the new state (a moduli-less server drops the group-exchange
     methods from `_preferred_kex` through `SecurityOptions.kex`) and the advertised lists
     (the kex list is computed from the state *after* that adjustment). -/
-def sendKexInit (info : Info) (s : Side) : Except Err (Side × KexInit) := do
+def sendKexInit (info : Info) (s : Side) : Except Err (Side × KexInit) :=
   let kexAlgos0 := s.preferredKex
-  let (s1, kexAlgos, availKeys) ←
-    if s.serverMode then
-      let kexMp := kexAlgos0.filter isGex
-      if !s.hasModuli && kexMp.length > 0 then do
-        let pkex := s.prefKex.filter fun k => !isGex k
-        let s1 ← setKex info s pkex
-        pure (s1, s1.preferredKex, s1.availableServerKeys)
-      else
-        pure (s, kexAlgos0, s.availableServerKeys)
-    else
-      pure (s, kexAlgos0 ++ [extInfoC], s.preferredKeys)
-  let kexAlgos := if s1.advertiseStrict then kexAlgos ++ [strictMarker s1.serverMode] else kexAlgos
-  pure (s1, { kex := kexAlgos, keys := availKeys,
-              cEnc := s1.preferredCiphers, sEnc := s1.preferredCiphers,
-              cMac := s1.preferredMacs, sMac := s1.preferredMacs,
-              cComp := s1.preferredComp, sComp := s1.preferredComp })
+  let adjusted : Except Err Side :=
+    if s.mustDropGex then setKex info s (s.prefKex.filter fun k => !isGex k) else .ok s
+  match adjusted with
+  | .error e => .error e
+  | .ok s1 =>
+    let kexAlgos :=
+      if s.serverMode then (if s.mustDropGex then s1.preferredKex else kexAlgos0)
+      else kexAlgos0 ++ [extInfoC]
+    let availKeys := if s.serverMode then s1.availableServerKeys else s1.preferredKeys
+    let kexAlgos := if s1.advertiseStrict then kexAlgos ++ [strictMarker s1.serverMode] else kexAlgos
+    .ok (s1, { kex := kexAlgos, keys := availKeys,
+               cEnc := s1.preferredCiphers, sEnc := s1.preferredCiphers,
+               cMac := s1.preferredMacs, sMac := s1.preferredMacs,
+               cComp := s1.preferredComp, sComp := s1.preferredComp })
 
 /-- what `_parse_kex_init` stores on the transport -/
 structure Agreed where
@@ -195,37 +197,43 @@ def agreeList (server : Bool) (own peer : List Name) : List Name :=
 
 /-- the part of `_parse_kex_init` after marker stripping and the strict-kex sequence check -/
 def negotiate (info : Info) (s : Side) (kexList : List Name) (p : KexInit) (ext : Option Name) :
-    Except Err Agreed := do
-  let kex ← firstOr (agreeList s.serverMode s.preferredKex kexList)
-  if !info.kex.contains kex then throw .keyError
+    Except Err Agreed :=
+  match firstOr (agreeList s.serverMode s.preferredKex kexList) with
+  | .error e => .error e
+  | .ok kex =>
+  -- `self.kex_engine = self._kex_info[agreed_kex[0]](self)`
+  if !info.kex.contains kex then .error .keyError else
   let ownKeys := if s.serverMode then s.availableServerKeys else s.preferredKeys
-  let hostKey ← firstOr (agreeList s.serverMode ownKeys p.keys)
+  match firstOr (agreeList s.serverMode ownKeys p.keys) with
+  | .error e => .error e
+  | .ok hostKey =>
   -- `if self.server_mode and (self.get_server_key() is None)`
-  if s.serverMode && !s.serverKeys.contains hostKey then throw .incompatible
+  if s.serverMode && !s.serverKeys.contains hostKey then .error .incompatible else
   -- local = what we send: server→client lists for a server, client→server lists for a client
   let localCiphers := agreeList s.serverMode s.preferredCiphers (if s.serverMode then p.sEnc else p.cEnc)
   let remoteCiphers := agreeList s.serverMode s.preferredCiphers (if s.serverMode then p.cEnc else p.sEnc)
-  if localCiphers.length == 0 || remoteCiphers.length == 0 then throw .incompatible
+  if localCiphers.length == 0 || remoteCiphers.length == 0 then .error .incompatible else
   let localMacs := agreeList s.serverMode s.preferredMacs (if s.serverMode then p.sMac else p.cMac)
   let remoteMacs := agreeList s.serverMode s.preferredMacs (if s.serverMode then p.cMac else p.sMac)
-  if localMacs.length == 0 || remoteMacs.length == 0 then throw .incompatible
+  if localMacs.length == 0 || remoteMacs.length == 0 then .error .incompatible else
   let localComp := agreeList s.serverMode s.preferredComp (if s.serverMode then p.sComp else p.cComp)
   let remoteComp := agreeList s.serverMode s.preferredComp (if s.serverMode then p.cComp else p.sComp)
-  if localComp.length == 0 || remoteComp.length == 0 then throw .incompatible
-  pure { kex := kex, hostKey := hostKey,
-         localCipher := localCiphers.headD [], remoteCipher := remoteCiphers.headD [],
-         localMac := localMacs.headD [], remoteMac := remoteMacs.headD [],
-         localComp := localComp.headD [], remoteComp := remoteComp.headD [],
-         remoteExtInfo := ext }
+  if localComp.length == 0 || remoteComp.length == 0 then .error .incompatible else
+  .ok { kex := kex, hostKey := hostKey,
+        localCipher := localCiphers.headD [], remoteCipher := remoteCiphers.headD [],
+        localMac := localMacs.headD [], remoteMac := remoteMacs.headD [],
+        localComp := localComp.headD [], remoteComp := remoteComp.headD [],
+        remoteExtInfo := ext }
 
 /-- `Transport._parse_kex_init(m)` on the parsed lists `p`; `seqno` = `m.seqno` -/
-def parseKexInit (info : Info) (s : Side) (p : KexInit) (seqno : Nat) : Except Err (Side × Agreed) := do
-  let (ext, strict) := scanMarkers s p.kex none s.agreedStrict
-  let s1 := { s with agreedStrict := strict }
+def parseKexInit (info : Info) (s : Side) (p : KexInit) (seqno : Nat) : Except Err (Side × Agreed) :=
+  let scan := scanMarkers s p.kex none s.agreedStrict
+  let s1 := { s with agreedStrict := scan.2 }
   let kexList := stripMarkers p.kex
-  if strict && !s.initialKexDone && seqno != 0 then throw .messageOrder
-  let a ← negotiate info s1 kexList p ext
-  pure (s1, a)
+  if scan.2 && !s.initialKexDone && seqno != 0 then .error .messageOrder else
+  match negotiate info s1 kexList p scan.1 with
+  | .error e => .error e
+  | .ok a => .ok (s1, a)
 
 /-! ## specification: RFC 4253 section 7.1 -/
 
